@@ -356,6 +356,13 @@ fn run_case(stream: &str, f: &[&str]) -> String {
         "arith" => (if vh::is_arithmetic(&unhex(f[0])) { "1" } else { "0" }).to_string(),
         "escpath" => hex(&vh::escape_path(&unhex(f[0]))),
         "ews" => format!("{}", vh::escaped_word_start(&unhex(f[0]))),
+        // the interactive highlighter on a line: `start-end:k` per range (k = 1: styled as a command)
+        "hl" => {
+            let r = vh::highlight_ranges(&unhex(f[0]));
+            if r.is_empty() { "[]".to_string() } else {
+                r.iter().map(|(a, b, g)| format!("{}-{}:{}", a, b, if *g { 1 } else { 0 })).collect::<Vec<_>>().join(",")
+            }
+        }
         // env, tree, ctx, prefix, typed word, for_dir, prog: complete_path in the generated directory, then every
         // candidate's line through line_to_cmds + from_line (in that directory)
         "cmpl" => with_env(f[0], |sh| {
